@@ -41,7 +41,12 @@ type idDataP struct{ plainP }
 func (p idDataP) ID() string        { return "fixed-id-456" }
 func (p idDataP) Data() interface{} { return []interface{}{"d", 1} }
 
-var payloadKinds = []string{"plain", "id", "data", "id+data", "empty-id"}
+// dataNilP has a Data() and it says: no data. That is the payload's answer, not a cue to publish the payload itself.
+type dataNilP struct{ plainP }
+
+func (p dataNilP) Data() interface{} { return nil }
+
+var payloadKinds = []string{"plain", "id", "data", "id+data", "empty-id", "data-nil"}
 var formatKinds = []string{"unset", "json", "text", "invalid"}
 var sourceKinds = []string{"set", "nil", "empty"}
 var schemaKinds = []string{"nil", "set", "empty"}
@@ -129,6 +134,8 @@ func runCaseInner(c caseSpec, note *string) string {
 		payload, wantData = dataP{base}, map[string]interface{}{"inner": base.Name}
 	case "id+data":
 		payload, wantData, wantID = idDataP{base}, []interface{}{"d", json.Number("1")}, "fixed-id-456"
+	case "data-nil":
+		payload, wantData = dataNilP{base}, nil
 	}
 	f := &ce.FormatterFilter{}
 	switch sourceKinds[c.source] {
@@ -343,6 +350,105 @@ func runCaseInner(c caseSpec, note *string) string {
 	return ""
 }
 
+// ---- histories: Process interleaved (sequentially) with Rotate ---------------------------
+//
+// Every sequence of up to 4 steps over {Process a listed type, Process an unlisted type, Rotate(A),
+// Rotate(B)} from a filter that starts without a signer or with signer A: a listed event is signed by
+// exactly the signer configured at that moment (none: unsigned), an unlisted one never.
+func runHistories(res *hk.Result, scn int) {
+	mkSigner := func(name string, calls *[]string) ce.Signer {
+		return func(_ context.Context, b []byte) (string, error) {
+			*calls = append(*calls, name)
+			return fmt.Sprintf("%s-sig-%x", name, fnv(b)), nil
+		}
+	}
+	ops := []string{"P-listed", "P-unlisted", "R-A", "R-B"}
+	var seq []int
+	var rec func()
+	run := func(init string) string {
+		var calls []string
+		f := &ce.FormatterFilter{SignEventTypes: []string{"audit"}}
+		f.Source, _ = url.Parse("https://example.test/src")
+		cur := ""
+		if init == "A" {
+			f.Signer, cur = mkSigner("A", &calls), "A"
+		}
+		for i, o := range seq {
+			switch ops[o] {
+			case "R-A", "R-B":
+				name := ops[o][2:]
+				if err := f.Rotate(mkSigner(name, &calls)); err != nil {
+					return fmt.Sprintf("step %d: Rotate failed: %v", i, err)
+				}
+				cur = name
+			default:
+				typ := el.EventType("audit")
+				if ops[o] == "P-unlisted" {
+					typ = "other"
+				}
+				calls = calls[:0]
+				e := &el.Event{Type: typ, CreatedAt: time.Unix(1700000000, 0), Formatted: map[string][]byte{}, Payload: plainP{Name: "h", N: i}}
+				out, err := f.Process(context.Background(), e)
+				if err != nil || out != e {
+					return fmt.Sprintf("step %d %s: want the event forwarded, got (%v, %v)", i, ops[o], out, err)
+				}
+				b, _ := e.Format(string(ce.FormatJSON))
+				var doc map[string]interface{}
+				if err := json.Unmarshal(b, &doc); err != nil {
+					return fmt.Sprintf("step %d: stored bytes are not JSON: %v", i, err)
+				}
+				mac, _ := doc["serialized_hmac"].(string)
+				ser, _ := doc["serialized"].(string)
+				mustSign := cur != "" && typ == "audit"
+				if !mustSign {
+					if mac != "" || ser != "" || len(calls) != 0 {
+						return fmt.Sprintf("step %d %s: signed (or signer invoked: %v) although signer=%q / type %q", i, ops[o], calls, cur, typ)
+					}
+					continue
+				}
+				raw, derr := base64.RawURLEncoding.DecodeString(ser)
+				if ser == "" || derr != nil {
+					return fmt.Sprintf("step %d %s: signer %s is configured (set by an earlier Rotate or at construction) and the type is listed, but the event carries no valid serialized member", i, ops[o], cur)
+				}
+				if want := fmt.Sprintf("%s-sig-%x", cur, fnv(raw)); mac != want || len(calls) != 1 || calls[0] != cur {
+					return fmt.Sprintf("step %d %s: serialized_hmac=%q (signers invoked: %v), the current signer %s yields %q", i, ops[o], mac, calls, cur, want)
+				}
+			}
+		}
+		return ""
+	}
+	rec = func() {
+		if len(seq) > 0 {
+			for _, init := range []string{"", "A"} {
+				res.Add("execs", 1)
+				res.Add("steps", int64(len(seq)))
+				res.Add("nodes", 1)
+				var names []string
+				for _, o := range seq {
+					names = append(names, ops[o])
+				}
+				name := fmt.Sprintf("history initial-signer=%q steps=%v", init, names)
+				if v := run(init); v != "" {
+					if !res.AddViolation(prop, hk.Viol{Scn: scn, Name: name, Kind: "oracle", Detail: name + ": " + v}) {
+						return
+					}
+				}
+				res.Outcome(fmt.Sprintf("hist-len%d-init%s", len(seq), init))
+			}
+		}
+		if len(seq) == 4 {
+			return
+		}
+		for o := range ops {
+			seq = append(seq, o)
+			rec()
+			seq = seq[:len(seq)-1]
+		}
+	}
+	rec()
+	res.Samples = append(res.Samples, "history initial-signer=\"\" steps=[P-listed R-A P-listed]: first event unsigned, second signed by A")
+}
+
 func fnv(b []byte) uint64 {
 	var h uint64 = 14695981039346656037
 	for _, c := range b {
@@ -362,10 +468,14 @@ func main() {
 			for i := 0; i < len(cases); i += chunk {
 				n = append(n, fmt.Sprintf("cases %d..%d", i, min(i+chunk, len(cases))-1))
 			}
-			return n
+			return append(n, "Process / Rotate histories")
 		},
 		RunJob: func(tier string, job hk.Job, deadline time.Time) *hk.Result {
 			res := &hk.Result{}
+			if job.Scn*chunk >= len(cases) {
+				runHistories(res, job.Scn)
+				return res
+			}
 			for i := job.Scn * chunk; i < min((job.Scn+1)*chunk, len(cases)); i++ {
 				v, note := runCase(cases[i])
 				res.Add("execs", 1)
@@ -386,7 +496,7 @@ func main() {
 			res.Samples = append(res.Samples, cases[job.Scn*chunk].String())
 			return res
 		},
-		Rule:        "the full product payload {plain, ID, Data, ID+Data, ID()==\"\"} x Format {unset, json, text, invalid} x Source {set, nil, empty} x Schema {nil, set, empty} x Signer {nil, succeeding, failing, failing while the context becomes done} x event type {listed, not listed for signing} x Predicate {nil, true, false, error} = 5760 cases on the real FormatterFilter; the emitted bytes are parsed back: required members, specversion 1.0, time, data (payload or Data()), content type, schema, indentation, fresh unique ids; signed iff signer and listed, serialized base64url-decodes to exactly the bytes the signer saw and to the unsigned document (byte-identical to an unsigned twin run when the id is fixed), serialized_hmac is the signer's result; failing signer => not forwarded; the document stored for the previously formatted event stays unchanged; invalid configurations and empty IDs rejected.",
+		Rule:        "the full product payload {plain, ID, Data, ID+Data, ID()==\"\", Data()==nil} x Format {unset, json, text, invalid} x Source {set, nil, empty} x Schema {nil, set, empty} x Signer {nil, succeeding, failing, failing while the context becomes done} x event type {listed, not listed for signing} x Predicate {nil, true, false, error} = 6912 cases on the real FormatterFilter; the emitted bytes are parsed back: required members, specversion 1.0, time, data (payload or Data()), content type, schema, indentation, fresh unique ids; signed iff signer and listed, serialized base64url-decodes to exactly the bytes the signer saw and to the unsigned document (byte-identical to an unsigned twin run when the id is fixed), serialized_hmac is the signer's result; failing signer => not forwarded; the document stored for the previously formatted event stays unchanged; invalid configurations and empty IDs rejected. Plus every history of up to 4 steps over {Process a listed type, Process an unlisted type, Rotate(A), Rotate(B)} from a filter without a signer or with signer A (680 histories): a listed event is signed by exactly the signer configured at that moment, an unlisted one never.",
 		Assumptions: []string{"uniqueness of generated ids is checked across the cases of one worker process only (probabilistic property of a 10-character random id)"},
 		QuickBudget: 120 * time.Second, ThoroughBudget: 10 * time.Minute,
 	})
